@@ -133,6 +133,85 @@ def main(tier, replay=None):
             pywire.run_case(c, scratch, want=("encode", "decode"))
             rep.feature("enum-offset-slice")
         cases += ecases
+    # ---- beyond the listed properties (informational, never a verdict) ----
+    # (a) decoding arbitrary buffers: Wire!Dec is total, so the specification predicts the value or a
+    #     read outside the buffer (hostile "ahead"); (b) a NEWER receiver decoding an OLDER sender's
+    #     bytes (the direction C05 does not claim): the same Decode guard on zero-padded bytes.
+    import random as _random
+    from .. import evolve as _evolve
+    extra = []
+    with common.Scratch("c02x") as scratch:
+        for k in range(60 if tier == "quick" else 800):
+            rng = _random.Random("c02x/%d/%d" % (seed, k))
+            g = gen.RandSchema(rng, gen.Cfg(max_bits=rng.choice([60, 200]), p_ext=0.6, enums=False, max_depth=3))
+            base = g.build()
+            t = base["rtype"]
+            c = pywire.PyCase("c02-any-%d" % k, base, [])
+            d = scratch.sub()
+            try:
+                from .. import render as _render
+                main_path, paths = _render.write_program(base, d)
+                drive.compile_program(paths, base["order"], "py", d)
+                mod = drive.load_py(d, base["main"] + "_bp")
+                cls = getattr(mod, base["top"])
+                for _ in range(4):
+                    raw = bytearray(rng.getrandbits(8) if rng.random() < 0.7 else 0 for _ in range(cls.BYTES_LENGTH))
+                    o = cls()
+                    try:
+                        o.decode(bytearray(raw))
+                        c.events.append({"ev": "DecodeAny", "bytes": list(raw), "outcome": "value",
+                                         "v": gen.sm_tree(t, drive.py_get(o, t))})
+                    except IndexError:
+                        c.events.append({"ev": "DecodeAny", "bytes": list(raw), "outcome": "IndexError", "v": []})
+                    except Exception as exc:
+                        c.events.append({"ev": "DecodeAny", "bytes": list(raw), "outcome": type(exc).__name__, "v": []})
+                # (b) newer receiver, older sender
+                if gen.has_ext(t):
+                    versions, descr = _evolve.chain(base, rng, 2)
+                    if len(versions) >= 2:
+                        new = versions[-1]
+                        olds = []
+                        for _ in range(2):
+                            o = cls()
+                            drive.py_set(o, t, gen.gen_value(rng, t, "rand"))
+                            olds.append(bytes(o.encode()))
+                        drive.unload_py(d)
+                        d2 = scratch.sub()
+                        mp2, paths2 = _render.write_program(new, d2)
+                        drive.compile_program(paths2, new["order"], "py", d2)
+                        mod2 = drive.load_py(d2, new["main"] + "_bp")
+                        cls2 = getattr(mod2, new["top"])
+                        try:
+                            for b in olds:
+                                padded = bytearray(b) + bytearray(max(0, cls2.BYTES_LENGTH - len(b)))
+                                o2 = cls2()
+                                try:
+                                    o2.decode(bytearray(padded))
+                                    c.events.append({"ev": "DecodeAny", "t": gen.export_type(new["rtype"]),
+                                                     "bytes": list(padded), "outcome": "value",
+                                                     "v": gen.sm_tree(new["rtype"], drive.py_get(o2, new["rtype"]))})
+                                except IndexError:
+                                    c.events.append({"ev": "DecodeAny", "t": gen.export_type(new["rtype"]),
+                                                     "bytes": list(padded), "outcome": "IndexError", "v": []})
+                        finally:
+                            drive.unload_py(d2)
+            except Exception as exc:
+                c.events.append({"ev": "Raise", "what": "harness:%s" % type(exc).__name__})
+            finally:
+                drive.unload_py(d)
+            c.event_src = [-1] * len(c.events)
+            extra.append(c)
+    xtraces = [pywire.trace_of(c) for c in extra if c.events]
+    if xtraces:
+        xv, xr = tlc.validate_traces("WireTrace", "WireTrace.cfg", xtraces)
+        rep.add_tlc(xr, "beyond listed properties: arbitrary buffers and newer-receiver decodes (informational)")
+        nev = sum(len(tr["events"]) for tr in xtraces)
+        outside = sum(1 for tr in xtraces for e in tr["events"] if e.get("outcome") == "IndexError")
+        rep.cov["beyond_listed_properties"] = {
+            "what": "Wire!Dec on arbitrary buffers (value or read-outside-buffer = IndexError) and on older-sender bytes "
+                    "decoded by a newer receiver; informational, never a verdict",
+            "decodes": nev, "runs_ending_outside_the_buffer": outside,
+            "traces_not_explained_by_the_specification": [why for ok, why in xv if not ok][:5]}
     rep.cov["rule"] = ("U_rand schemas x {zero, all-ones/min, boundary-biased random} values plus the slice "
                        "{enum width 1..64} x {bit offset 0..7} x {scalar, array element}; one evaluation is one "
                        "encode->decode->re-encode round trip; distinct_nontrivial counts distinct schema shapes "
